@@ -162,7 +162,10 @@ class Runner:
     def run(self, texts):
         """texts: list of str -> (impl lines [5 fields], model lines or None)"""
         inp = "\n".join(utf8(t).hex() for t in texts) + "\n"
-        p = subprocess.run([self.exe_i], input=inp.encode(), stdout=subprocess.PIPE, stderr=subprocess.DEVNULL, timeout=3000)
+        try:
+            p = subprocess.run([self.exe_i], input=inp.encode(), stdout=subprocess.PIPE, stderr=subprocess.DEVNULL, timeout=3000)
+        except (OSError, subprocess.TimeoutExpired):
+            return None, None
         out_i = p.stdout.decode().split("\n")
         if p.returncode != 0 or len(out_i) < len(texts):
             return None, None
@@ -170,10 +173,13 @@ class Runner:
         out_m = None
         if self.exe_m:
             cls = "\n".join(l.split("\t", 1)[0] for l in out_i) + "\n"
-            q = subprocess.run([self.exe_m], input=cls.encode(), stdout=subprocess.PIPE, stderr=subprocess.DEVNULL, timeout=3000)
-            om = q.stdout.decode().split("\n")
-            if q.returncode == 0 and len(om) >= len(texts):
-                out_m = om[:len(texts)]
+            try:
+                q = subprocess.run([self.exe_m], input=cls.encode(), stdout=subprocess.PIPE, stderr=subprocess.DEVNULL, timeout=3000)
+                om = q.stdout.decode().split("\n")
+                if q.returncode == 0 and len(om) >= len(texts):
+                    out_m = om[:len(texts)]
+            except (OSError, subprocess.TimeoutExpired):
+                pass
         return out_i, out_m
 
 
